@@ -99,6 +99,38 @@ theorem not_match_and_cover (inZone : Bool) (o n x : Nat) :
   · omega
   · split at h <;> omega
 
+/-- the intervals of two records that follow each other in a chain (`o < n < m`) share no name -/
+theorem adjacent_covers_disjoint (o n m x : Nat) (h1 : o < n) (h2 : n < m) :
+    ¬ (nsec3Cover true o n x = true ∧ nsec3Cover true n m x = true) := by
+  rw [cover_iff, cover_iff]
+  rintro ⟨⟨_, ha⟩, _, hb⟩
+  unfold strictlyBetweenCircular at ha hb
+  simp only [h1, h2, ↓reduceIte] at ha hb
+  omega
+
+/-- **two_record_chain_partitions**: in a complete chain of two records (`o → n → o`) every hash is matched by one
+    of them or covered by one of them, and by exactly one of the four -/
+theorem two_record_chain_partitions (o n x : Nat) (h : o < n) :
+    let m1 := nsec3Match true o x; let m2 := nsec3Match true n x
+    let c1 := nsec3Cover true o n x; let c2 := nsec3Cover true n o x
+    (m1 = true ∨ m2 = true ∨ c1 = true ∨ c2 = true)
+    ∧ ¬ (m1 = true ∧ m2 = true) ∧ ¬ (m1 = true ∧ c1 = true) ∧ ¬ (m1 = true ∧ c2 = true)
+    ∧ ¬ (m2 = true ∧ c1 = true) ∧ ¬ (m2 = true ∧ c2 = true) ∧ ¬ (c1 = true ∧ c2 = true) := by
+  intro m1 m2 c1 c2
+  have e1 : m1 = true ↔ x = o := by simp [m1, match_iff]
+  have e2 : m2 = true ↔ x = n := by simp [m2, match_iff]
+  have hno : ¬ n < o := by omega
+  have e3 : c1 = true ↔ (o < x ∧ x < n) := by
+    simp only [c1, cover_iff, strictlyBetweenCircular, h, ↓reduceIte, true_and]
+  have e4 : c2 = true ↔ (n < x ∨ x < o) := by
+    simp only [c2, cover_iff, strictlyBetweenCircular, hno, h, ↓reduceIte, true_and]
+  rw [e1, e2, e3, e4]
+  omega
+
+/-- a chain of one record (`o → o`, a zone with one name) covers every hash but its own -/
+theorem one_record_chain (o x : Nat) : nsec3Cover true o o x = true ↔ x ≠ o := by
+  rw [cover_iff]; simp [strictlyBetweenCircular]
+
 /-! ### validity period -/
 
 theorem tdiv_small (x : Int) (h1 : -year68 < x) (h2 : x < year68) : Int.tdiv x year68 = 0 := by
